@@ -293,7 +293,9 @@ class HTTP1Connection(httputil.HTTPConnection):
                 await self._finish_future
             if self.is_client and self._disconnect_on_finish:
                 self.close()
-            if self.stream is None:
+            if self.stream is None or self.stream.closed():
+                # Detached, or closed after the response (by us or by the
+                # peer): anything still buffered must not be served.
                 return False
         except httputil.HTTPInputError as e:
             gen_log.info("Malformed HTTP message from %s: %s", self.context, e)
